@@ -210,6 +210,7 @@ struct Atomic {
 
   // raw (unscheduled, unreported) access for harness code
   [[nodiscard]] T Raw() const noexcept { return __atomic_load_n(&v_, __ATOMIC_SEQ_CST); }
+  void RawStore(T v) noexcept { __atomic_store_n(&v_, v, __ATOMIC_SEQ_CST); }
 };
 
 inline Atomic<uint32_t> *
